@@ -67,8 +67,14 @@ def run(ctx):
                     ctx.ob(R1, fi.qual, f"store `{astq.text(node)[:60]}`", False, "a request driver mutates the retry policy in place", node=node)
     # the policy is immutable by value too: remove_headers_on_redirect frozen, history a tuple
     init = m.method(RETRY, "__init__")
-    txt = astq.text(init.node)
-    ctx.ob(R1, init.qual, "collections held by the policy are immutable copies (frozenset / tuple)", "self.remove_headers_on_redirect = frozenset(" in txt and "self.history = history or ()" in txt)
+    irows = [r for r in effect_rows(ctx, init, GenRule(ctx, init.module, inline=helper_closure(m, [init]) - {init.qual}), RETRY) if r.returns]
+    from ..terms import destruct as _destruct
+    vals_rm = {e[3] for r in irows for e in r.events("store") if e[1] == "self" and e[2] == "remove_headers_on_redirect"}
+    vals_h = {e[3] for r in irows for e in r.events("store") if e[1] == "self" and e[2] == "history"}
+    ok_rm = bool(vals_rm) and all(_destruct(v_)[0] in ("frozenset", "tuple") for v_ in vals_rm)
+    # history: the caller's tuple, or the empty tuple
+    ok_h = bool(vals_h) and all(v_ in ("p:history", "()", "tuple()") or _destruct(v_)[0] in ("tuple", "or") for v_ in vals_h)
+    ctx.ob(R1, init.qual, "collections held by the policy are immutable copies (frozenset / tuple)", ok_rm and ok_h, f"remove_headers_on_redirect in {sorted(vals_rm)}, history in {sorted(vals_h)}")
 
     # ------------------------------------------------------------------ R2 resend => increment
     R2 = ctx.rule("C04-R2", "every resend consumed an increment: the retries argument of each self-recursive urlopen call derives from <policy>.increment(...) executed after the attempt being retried, on every path", "E6 provenance via E4")
